@@ -61,12 +61,17 @@ func typeNames(n int) []string {
 // argAt: node that additionally requires the unsupplied type *A0 (-1: none).
 // rev: bit i set => parameters of node i in reverse order.
 func coreDecl(name string, deps [][]int, async, errs uint, argAt int, rev uint) Decl {
+	return coreDeclP("T", name, deps, async, errs, argAt, rev)
+}
+
+// coreDeclP is coreDecl over the types <prefix>0.. and providers New<prefix>i.
+func coreDeclP(prefix, name string, deps [][]int, async, errs uint, argAt int, rev uint) Decl {
 	n := len(deps)
-	d := Decl{Name: name, Request: "*T0"}
+	d := Decl{Name: name, Request: "*" + prefix + "0"}
 	for i := n - 1; i >= 0; i-- {
-		pr := Prov{Name: fmt.Sprintf("NewT%d", i), Results: []string{fmt.Sprintf("*T%d", i)}, Kind: KFunc}
+		pr := Prov{Name: fmt.Sprintf("New%s%d", prefix, i), Results: []string{fmt.Sprintf("*%s%d", prefix, i)}, Kind: KFunc}
 		for _, j := range deps[i] {
-			pr.Params = append(pr.Params, fmt.Sprintf("*T%d", j))
+			pr.Params = append(pr.Params, fmt.Sprintf("*%s%d", prefix, j))
 		}
 		if argAt == i {
 			pr.Params = append(pr.Params, "*A0")
@@ -352,4 +357,135 @@ func sortInts(a []int) {
 		}
 	}
 	_ = a[:k]
+}
+
+// F5: files with two injectors where the second one is a full F1-style
+// declaration (n=4) with at least two Async providers: the second injector of a
+// file is named and wired differently (shared name pool, shared imports).
+// stride > 1 samples every stride-th variant.
+func F5(maxErr int, stride int) []*Program {
+	var out []*Program
+	k := 0
+	first := coreDecl("InitP", [][]int{{1, 2}, {}, {}}, 0b110, 0b010, -1, 0)
+	for di, deps := range dags(4) {
+		for async := uint(0); async < 16; async++ {
+			if bits(async) < 2 {
+				continue
+			}
+			for errs := uint(0); errs < 16; errs++ {
+				if bits(errs) > maxErr {
+					continue
+				}
+				k++
+				if stride > 1 && k%stride != 0 {
+					continue
+				}
+				types := append(typeNames(3), "U0", "U1", "U2", "U3")
+				p := &Program{Family: "F5", Types: types}
+				p.Desc = fmt.Sprintf("second-injector n=4 dag=%d async=%04b err=%04b", di, async, errs)
+				p.Decls = []Decl{first, coreDeclP("U", "InitQ", deps, async, errs, -1, 0)}
+				out = append(out, p)
+			}
+		}
+	}
+	return out
+}
+
+// named builds a declaration over arbitrarily named types: each entry of
+// provs is "Type:dep1,dep2" (provider NewType(deps...) *Type); flags per
+// provider: 'a' async, 'e' fallible, appended after '!'.
+func named(injector, request string, provs ...string) Decl {
+	d := Decl{Name: injector, Request: "*" + request}
+	for _, p := range provs {
+		flags := ""
+		if i := strings.IndexByte(p, '!'); i >= 0 {
+			flags, p = p[i+1:], p[:i]
+		}
+		parts := strings.SplitN(p, ":", 2)
+		pr := Prov{Name: "New" + parts[0], Results: []string{"*" + parts[0]}, Kind: KFunc}
+		if len(parts) == 2 && parts[1] != "" {
+			for _, dep := range strings.Split(parts[1], ",") {
+				pr.Params = append(pr.Params, "*"+dep)
+			}
+		}
+		pr.Async = strings.Contains(flags, "a")
+		pr.Err = strings.Contains(flags, "e")
+		d.Provs = append(d.Provs, pr)
+	}
+	return d
+}
+
+// FN is the naming family: user identifiers chosen to collide with what the
+// name allocator would hand out (C12 / C04-A gates).
+func FN() []*Program {
+	var out []*Program
+	add := func(desc string, types []string, consts []string, files [][]int, decls ...Decl) {
+		out = append(out, &Program{Family: "FN", Desc: desc, Types: types, Consts: consts, Decls: decls, Files: files})
+	}
+	// injector of file 1 named like the variable base name needed in file 2
+	add("injector name = later variable base name, two files", []string{"App", "Server", "Db"}, nil, [][]int{{0}, {1}},
+		named("app", "Server", "Server:Db", "Db:"),
+		named("InitApp", "App", "App:Db", "Db:"))
+	add("injector name = variable base name, same file", []string{"App", "Server", "Db"}, nil, nil,
+		named("db", "Server", "Server:Db", "Db:"),
+		named("InitApp", "App", "App:Db", "Db:"))
+	// suffixed user types
+	add("types Foo and Foo0, two injectors needing both", []string{"Foo", "Foo0", "Bar"}, nil, nil,
+		named("InitBar", "Bar", "Bar:Foo,Foo0", "Foo:", "Foo0:"),
+		named("InitBar2", "Bar", "Bar:Foo,Foo0", "Foo:", "Foo0:"))
+	add("type FooCh next to an awaited Foo", []string{"Foo", "FooCh", "Bar", "Baz"}, nil, nil,
+		named("InitBar", "Bar", "Bar:Foo,FooCh,Baz", "Foo:!a", "FooCh:!a", "Baz:Foo!a"))
+	add("type Err0 with two fallible providers", []string{"Err0", "A", "B"}, nil, nil,
+		named("InitB", "B", "B:A,Err0", "A:!e", "Err0:!e"))
+	add("package-level variable named like a generated variable", []string{"Config", "App"}, []string{"var config = 1", "var app0, configCh = 2, 3"}, nil,
+		named("InitApp", "App", "App:Config", "Config:!a"))
+	add("type named like a predeclared identifier suffix", []string{"Int", "String", "App"}, nil, nil,
+		named("InitApp", "App", "App:Int,String", "Int:", "String:"),
+		named("InitApp2", "App", "App:Int,String", "Int:", "String:"))
+	return out
+}
+
+// Invalid is a declaration the generator must refuse, with the type names its
+// diagnostic has to mention.
+type Invalid struct {
+	Prog  *Program
+	Kind  string
+	Names []string
+}
+
+// FI plants a back edge / duplicate supplier / orphan Struct into otherwise
+// valid declarations.
+func FI() []Invalid {
+	var out []Invalid
+	mk := func(kind, desc string, names []string, p *Program) {
+		p.Family, p.Desc = "FI", kind+": "+desc
+		out = append(out, Invalid{Prog: p, Kind: kind, Names: names})
+	}
+	mk("cycle", "two-node cycle below the root", []string{"T1", "T2"}, &Program{Types: typeNames(3), Decls: []Decl{{Name: "InitP", Request: "*T0", Provs: []Prov{
+		fn("NewT0", []string{"*T1"}, []string{"*T0"}, false), fn("NewT1", []string{"*T2"}, []string{"*T1"}, false), fn("NewT2", []string{"*T1"}, []string{"*T2"}, false)}}}})
+	mk("cycle", "self loop", []string{"T1"}, &Program{Types: typeNames(2), Decls: []Decl{{Name: "InitP", Request: "*T0", Provs: []Prov{
+		fn("NewT0", []string{"*T1"}, []string{"*T0"}, false), fn("NewT1", []string{"*T1"}, []string{"*T1"}, false)}}}})
+	mk("cycle", "three-node cycle through the root, async", []string{"T0", "T1", "T2"}, &Program{Types: typeNames(3), Decls: []Decl{{Name: "InitP", Request: "*T0", Provs: []Prov{
+		func() Prov { p := fn("NewT0", []string{"*T1"}, []string{"*T0"}, false); p.Async = true; return p }(), fn("NewT1", []string{"*T2"}, []string{"*T1"}, true), fn("NewT2", []string{"*T0"}, []string{"*T2"}, false)}}}})
+	mk("cycle", "cycle reached through a struct field", []string{"S0", "T1"}, &Program{Types: typeNames(2), Structs: map[string][]string{"S0": {"F0 *T1"}}, Decls: []Decl{{Name: "InitP", Request: "*T0", Provs: []Prov{
+		fn("NewT0", []string{"*T1"}, []string{"*T0"}, false), fn("NewS0", []string{"*T1"}, []string{"*S0"}, false), {Kind: KStruct, Struct: "*S0", Fields: []string{"F0"}, FTypes: []string{"*T1"}}}}}})
+	mk("duplicate", "two functions supply the same type", []string{"T1"}, &Program{Types: typeNames(2), Decls: []Decl{{Name: "InitP", Request: "*T0", Provs: []Prov{
+		fn("NewT0", []string{"*T1"}, []string{"*T0"}, false), fn("NewT1", nil, []string{"*T1"}, false), fn("NewT1b", nil, []string{"*T1"}, false)}}}})
+	mk("duplicate", "unused duplicate supplier", []string{"T2"}, &Program{Types: typeNames(3), Decls: []Decl{{Name: "InitP", Request: "*T0", Provs: []Prov{
+		fn("NewT0", nil, []string{"*T0"}, false), fn("NewT2", nil, []string{"*T2"}, false), fn("NewT2b", nil, []string{"*T2"}, true)}}}})
+	mk("duplicate", "Bind adds an interface another provider returns", []string{"I0"}, &Program{Types: typeNames(3), Ifaces: map[string]string{"I0": "T1"}, Decls: []Decl{{Name: "InitP", Request: "*T0", Provs: []Prov{
+		fn("NewT0", []string{"I0"}, []string{"*T0"}, false), func() Prov { p := fn("NewT1", nil, []string{"*T1"}, false); p.Bind = "I0"; return p }(), fn("NewI0", nil, []string{"I0"}, false)}}}})
+	mk("duplicate", "struct field type also supplied by a function", []string{"T1"}, &Program{Types: typeNames(2), Structs: map[string][]string{"S0": {"F0 *T1"}}, Decls: []Decl{{Name: "InitP", Request: "*T0", Provs: []Prov{
+		fn("NewT0", []string{"*T1"}, []string{"*T0"}, false), fn("NewS0", nil, []string{"*S0"}, false), {Kind: KStruct, Struct: "*S0", Fields: []string{"F0"}, FTypes: []string{"*T1"}}, fn("NewT1", nil, []string{"*T1"}, false)}}}})
+	mk("duplicate", "two results of one provider and another provider", []string{"T2"}, &Program{Types: typeNames(3), Decls: []Decl{{Name: "InitP", Request: "*T0", Provs: []Prov{
+		fn("NewT0", []string{"*T1", "*T2"}, []string{"*T0"}, false), fn("NewT1T2", nil, []string{"*T1", "*T2"}, false), fn("NewT2", nil, []string{"*T2"}, false)}}}})
+	mk("orphan-struct", "Struct expansion without a source", []string{"S0"}, &Program{Types: typeNames(2), Structs: map[string][]string{"S0": {"F0 *T1"}}, Decls: []Decl{{Name: "InitP", Request: "*T0", Provs: []Prov{
+		fn("NewT0", []string{"*T1"}, []string{"*T0"}, false), {Kind: KStruct, Struct: "*S0", Fields: []string{"F0"}, FTypes: []string{"*T1"}}}}}})
+	mk("orphan-struct", "Struct expansion whose struct is itself only a field", []string{"S1"}, &Program{Types: typeNames(2), Structs: map[string][]string{"S0": {"F0 *S1"}, "S1": {"G0 *T1"}}, Decls: []Decl{{Name: "InitP", Request: "*T0", Provs: []Prov{
+		fn("NewT0", []string{"*T1"}, []string{"*T0"}, false), {Kind: KStruct, Struct: "*S1", Fields: []string{"G0"}, FTypes: []string{"*T1"}}, fn("NewS0", nil, []string{"*S0"}, false), {Kind: KStruct, Struct: "*S0", Fields: []string{"F0"}, FTypes: []string{"*S1"}}}}}})
+	// second declaration of a file is invalid: the first one's output must not appear either
+	mk("cycle", "second injector of the file is cyclic", []string{"T1"}, &Program{Types: typeNames(3), Decls: []Decl{
+		{Name: "InitOK", Request: "*T2", Provs: []Prov{fn("NewT2", nil, []string{"*T2"}, false)}},
+		{Name: "InitP", Request: "*T0", Provs: []Prov{fn("NewT0", []string{"*T1"}, []string{"*T0"}, false), fn("NewT1", []string{"*T1"}, []string{"*T1"}, false)}}}})
+	return out
 }
